@@ -268,7 +268,9 @@ func c14(args []string) error {
 						okIn = false
 					}
 				}
-				if tmpd, e := os.MkdirTemp("", "c14cli"); okIn && e == nil {
+				if !okIn {
+					// nothing to run (and no directory to leave behind)
+				} else if tmpd, e := os.MkdirTemp("", "c14cli"); e == nil {
 					inf := filepath.Join(tmpd, "in.fa")
 					var b strings.Builder
 					for k := range names {
